@@ -13,8 +13,6 @@ namespace {
 
 static const auto g_processStartTime = std::chrono::steady_clock::now();
 
-static const QChar DEL_MARKER = QChar(0x200B);
-
 class Token
 {
 public:
@@ -22,6 +20,19 @@ public:
     virtual size_t estimatedLength() const = 0;
     virtual bool checkCondition(const LogMessage &) const { return true; }
     virtual void appendToString(const LogMessage &lmsg, QString &dest) const = 0;
+
+    // pendingRemoval is the number of characters an absent optional attribute asked to
+    // drop from the literal text that follows it. It is kept beside the output buffer,
+    // never inside it, so that no character of a value can be mistaken for it.
+    virtual void appendToString(const LogMessage &lmsg, QString &dest, int &pendingRemoval) const
+    {
+        const auto sizeBefore = dest.size();
+        appendToString(lmsg, dest);
+        if (dest.size() != sizeBefore) {
+            // something else than literal text follows the attribute
+            pendingRemoval = 0;
+        }
+    }
 };
 
 class ConditionToken : public Token
@@ -235,16 +246,16 @@ public:
 
     void appendToString(const LogMessage &, QString &dest) const override
     {
-        int removeCount = 0;
-        while (!dest.isEmpty() && dest.at(dest.size() - 1) == DEL_MARKER) {
-            dest.chop(1);
-            removeCount++;
-        }
+        dest.append(m_text);
+    }
 
-        if (removeCount > 0 && removeCount < m_text.size()) {
+    void appendToString(const LogMessage &, QString &dest, int &pendingRemoval) const override
+    {
+        const int removeCount = pendingRemoval;
+        pendingRemoval = 0;
+
+        if (removeCount < m_text.size()) {
             dest.append(m_text.mid(removeCount));
-        } else if (removeCount == 0) {
-            dest.append(m_text);
         }
 
         // If removeCount >= m_text.size(), append nothing
@@ -741,25 +752,32 @@ public:
 
     void appendToString(const LogMessage &lmsg, QString &dest) const override
     {
-        if (lmsg.hasAttribute(m_attributeName)) {
-            dest.append(applyPadding(lmsg.attribute(m_attributeName).toString()));
+        int pendingRemoval = 0;
+        appendToString(lmsg, dest, pendingRemoval);
+    }
+
+    void appendToString(const LogMessage &lmsg, QString &dest, int &pendingRemoval) const override
+    {
+        if (lmsg.hasAttribute(m_attributeName) || !m_optional) {
+            const auto sizeBefore = dest.size();
+            if (lmsg.hasAttribute(m_attributeName)) {
+                dest.append(applyPadding(lmsg.attribute(m_attributeName).toString()));
+            } else {
+                QString value = QStringLiteral("%{") + m_attributeName + QStringLiteral("}");
+                dest.append(applyPadding(value));
+            }
+            if (dest.size() != sizeBefore) {
+                pendingRemoval = 0;
+            }
             return;
         }
 
-        if (!m_optional) {
-            QString value = QStringLiteral("%{") + m_attributeName + QStringLiteral("}");
-            dest.append(applyPadding(value));
-            return;
-        }
-
-        // Optional attribute not found: remove characters before and add ZWSP markers for removeAfter
+        // Optional attribute not found: remove characters before and remember how many
+        // characters to remove from the literal text that follows
         if (m_removeBefore > 0 && dest.size() >= m_removeBefore) {
             dest.chop(m_removeBefore);
         }
-        // Append ZWSP markers to signal how many chars to remove from next token
-        for (int i = 0; i < m_removeAfter; ++i) {
-            dest.append(DEL_MARKER);
-        }
+        pendingRemoval += m_removeAfter;
     }
 
     size_t estimatedLength() const override
@@ -948,13 +966,13 @@ public:
         QString result;
         result.reserve(estimatedLength);
 
+        int pendingRemoval = 0;
+
         for (const auto &token : std::as_const(m_tokens)) {
             if (token->checkCondition(lmsg)) {
-                token->appendToString(lmsg, result);
+                token->appendToString(lmsg, result, pendingRemoval);
             }
         }
-
-        result.remove(DEL_MARKER);
 
         return result;
     }
